@@ -37,9 +37,9 @@ CLAIMED['C07'] = dict(
     design='5 C07')
 
 CLAIMED['C19'] = dict(
-    text=BMC + 'C19: score shapes of C07, every subset of barline positions as cut set (<= 6 fragments) and the three separators are solver-enumerated selectors; concat() is compared with loads(joined) through a deep structural snapshot, the index pairs are checked for count, consecutiveness and end, and each pair is exported and compared with the data lines of its fragment.',
+    text=BMC + 'C19: score shapes of C07, every subset of barline positions as cut set (<= 6 fragments) and the three separators are solver-enumerated selectors; concat() is compared with loads(joined) through a deep structural snapshot, the index pairs are checked for count, consecutiveness and end, and each pair is exported and compared with the data lines of its fragment. (b) Generic.concat\'s index bookkeeping is executed with the prefix import stubbed and the six prefix measure counts as UNBOUNDED symbolic integers (every non-decreasing sequence): pairs consecutive, pair i ends at the count of prefix i, prefixes are the separator-joined fragments.',
     note=NOTE + 'Cuts are placed in front of barline lines; fragments whose first piece has no measure are outside (measures_count() raises by contract).',
-    technique='CrossHair-engine exhaustive enumeration (z3-decided selectors: shape, cut mask, separator) of Generic.concat against a text-level fragment model and structural snapshots',
+    technique='CrossHair-engine symbolic execution of Generic.concat with symbolic integer measure counts (stubbed prefix import) + exhaustive enumeration (z3-decided selectors: shape, cut mask, separator) against a text-level fragment model and structural snapshots',
     design='5 C19')
 
 CLAIMED['C02'] = dict(
